@@ -322,3 +322,38 @@ Theorem C18_resume_hypotheses_inhabited : forall c,
      nv_encrypt st pts ein = Ok cts -> length cts = evaluatorCiphertextCount /\ Forall (fits2 16) cts).
 Proof. exact resume_hypotheses_inhabited. Qed.
 Print Assumptions C18_resume_hypotheses_inhabited.
+
+(* ---- C18_rounds_are_functions.  In the model the result of a round is a
+   function of (state, incoming message, randomness) only — true by
+   construction in Gallina, stated here for the two situations in which the
+   IMPLEMENTATION could differ through aliasing of pooled memory (a
+   Round3Payload whose GarbledTables point into scratch that a later Garble
+   reuses): for ALL opaque crypto functions, randomness and inputs, two
+   sessions whose rounds are interleaved in one process (both Round3 payloads
+   computed before either is evaluated) end exactly as the two sessions run
+   alone; and a second round 3 with fresh randomness leaves the first payload's
+   evaluation unchanged.  That the Go code has this property is what the
+   harness checks (oracle keys c18:overlapping-sessions:*, c18:round3-retry:*,
+   c18:interleaved-sessions:*: the encoding of a held payload must not change
+   after a later GarblerRound3, and every digest must be SHA-256(a xor b)). *)
+Theorem C18_rounds_are_functions :
+  forall RND c gen_sender read_sid build_choices read_key garble_circ encrypt_co decrypt_co eval_circ decompress,
+  (forall rg1A re2A rg3A aA bA rg1B re2B rg3B aB bB,
+     run_two_interleaved RND c gen_sender read_sid build_choices read_key garble_circ encrypt_co decrypt_co
+                         eval_circ rg1A re2A rg3A aA bA rg1B re2B rg3B aB bB
+     = (run_protocol RND c gen_sender read_sid build_choices read_key garble_circ encrypt_co decrypt_co
+                     eval_circ decompress 0 0 0 0 false false false rg1A re2A rg3A aA bA,
+        run_protocol RND c gen_sender read_sid build_choices read_key garble_circ encrypt_co decrypt_co
+                     eval_circ decompress 0 0 0 0 false false false rg1B re2B rg3B aB bB)) /\
+  (forall rng rng' st a req es,
+     (let p1 := GarblerRound3 RND read_key garble_circ encrypt_co rng st a req in
+      let p2 := GarblerRound3 RND read_key garble_circ encrypt_co rng' st a req in
+      (bind p1 (EvaluatorRound4 decrypt_co eval_circ es), bind p2 (EvaluatorRound4 decrypt_co eval_circ es)))
+     = (bind (GarblerRound3 RND read_key garble_circ encrypt_co rng st a req) (EvaluatorRound4 decrypt_co eval_circ es),
+        bind (GarblerRound3 RND read_key garble_circ encrypt_co rng' st a req) (EvaluatorRound4 decrypt_co eval_circ es))).
+Proof.
+  exact (fun RND c gs rs bc rk gc ec dc ev dz =>
+           conj (sessions_independent RND c gs rs bc rk gc ec dc ev dz)
+                (round3_retry_keeps_first RND rk gc ec dc ev)).
+Qed.
+Print Assumptions C18_rounds_are_functions.
